@@ -245,6 +245,14 @@ class Eval:
         if isinstance(e, ast.Name):
             if e.id in env:
                 return env[e.id]
+            # a module-level literal constant of the formatter module (a size limit, a keyword table)
+            mv = self.table.mod.assigns.get(e.id)
+            if mv is not None:
+                try:
+                    from .model import const_value
+                    return const_value(mv)
+                except ValueError:
+                    pass
             raise AnalysisError(f"fmt_eval: unknown name {e.id}")
         if isinstance(e, ast.JoinedStr):
             out = Str()
@@ -448,6 +456,21 @@ class Eval:
             args = [self._expr(a, env) for a in e.args]
             if all(isinstance(a, int) for a in args):
                 return list(range(*args))
+        if fn in ("np.prod", "numpy.prod", "math.prod", "sum", "min", "max", "len", "abs") and len(e.args) == 1 and not e.keywords:
+            v = self._expr(e.args[0], env)
+            nums = list(v) if isinstance(v, (list, tuple)) else None
+            if fn == "len" and isinstance(v, (list, tuple)):
+                return len(v)
+            if fn == "abs" and isinstance(v, (int, float)) and not isinstance(v, bool):
+                return abs(v)
+            if nums is not None and all(isinstance(x, (int, float)) and not isinstance(x, bool) for x in nums):
+                if fn.endswith("prod"):
+                    out = 1
+                    for x in nums:
+                        out *= x
+                    return out
+                if fn in ("sum", "min", "max") and (nums or fn == "sum"):
+                    return {"sum": sum, "min": min, "max": max}[fn](nums)
         if fn == "str":
             return self._tostr(self._expr(e.args[0], env))
         if isinstance(e.func, ast.Attribute) and e.func.attr == "join":
